@@ -1,12 +1,13 @@
 """C04 — a decision's value is its logic evaluated over its requirement graph.
 Proof: coq/Props/C04.v — the recursive closure wiring of decision.rs / business_knowledge_model.rs / decision_service.rs
-(ImplModel `run`) equals the node semantics tabulated once per node along a topological order (Spec `spec_step`) on every
-acyclic graph, for every sufficient fuel, over an abstract expression evaluator; inputs outside the requirement closure
-have no influence.
+(ImplModel `run`) computes what the invoked element DENOTES (Spec `denote`, coq/C04/Denote.v: a value by recursion over the
+acyclic graph, the environment of a logic written as a priority list; C04_impl_is_denotation) on every acyclic graph, for
+every sufficient fuel, over an abstract expression evaluator; inputs outside the requirement closure have no influence;
+neither fuel-exhaustion answer reaches the result (C04_fuel_sufficient_all).
 Correspondence: generated acyclic DRGs (inputs, decisions with literal / context / invocation / relation logic, knowledge
 models invoked literally and by boxed invocation and requiring knowledge models and services, decision services with
 input / encapsulated / output decisions) serialised to DMN XML, every invocable invoked through evaluate_invocable with
-several input contexts; compared with impl_invoke / spec_invoke instantiated with the tiny evaluator `teval`.
+several input contexts; compared with impl_invoke / denote instantiated with the tiny evaluator `teval`.
 The literal fragment has numbers as decimal128 data (small, negative, around 10^17 where products begin to be rounded, literals
 of more than 34 digits), strings (+ concatenates, every other mix is null) and knowledge models with repeated formal parameter
 names (the last argument stays bound); numbers are compared by value, at every size."""
@@ -23,7 +24,7 @@ decimal.getcontext().Emin = -999999
 from vlib import core
 from vlib.coqterm import App
 
-HEADER = ('From Coq Require Import List NArith ZArith Bool.\nFrom DV Require Import C04.Model.\nImport ListNotations.\nOpen Scope N_scope.\n')
+HEADER = ('From Coq Require Import List NArith ZArith Bool.\nFrom DV Require Import C04.Model C04.Denote.\nImport ListNotations.\nOpen Scope N_scope.\n')
 XHEAD = '<?xml version="1.0" encoding="UTF-8"?><definitions namespace="ns1" name="m1" id="d1" xmlns="https://www.omg.org/spec/DMN/20191111/MODEL/">'
 
 
@@ -381,6 +382,12 @@ def witness_graphs():
               dict(kind='dec', id=8, rk=[], rd=[5], ri=[], callable=[],
                    logic=('rel', (2001, 2002), ((('add', ('mul', ('num', 10 ** 17), ('num', 10 ** 17)), ('num', 1)), ('num', 99999999999999999999999999999999995)),
                                                 (('mul', ('num', -3), ('num', 0)), ('mul', ('var', 5), ('var', 5))))))])
+    # the input decision of a service requires and invokes that service (the shape repaired by /repo 6a3e4f8: the service takes the
+    # value of its input decision from the provided input and never evaluates it; before, evaluation recursed until the stack overflowed)
+    W.append([dict(kind='input', id=1),
+              dict(kind='dec', id=2, rk=[], rd=[], ri=[1], callable=[], logic=('add', ('var', 1), ('var', 4))),   # mentions 4 without requiring it
+              dict(kind='svc', id=3, ins=[1], indecs=[4], encs=[], outs=[2]),
+              dict(kind='dec', id=4, rk=[3], rd=[], ri=[1], callable=[3], logic=('call', 3, (('var', 1), ('num', 5))))])
     return W
 
 
@@ -516,9 +523,10 @@ def run_graphs(ctx, graphs, tag='g'):
         index.append(idx)
         order = order_of(G)
         fuel = len(G) + 1
-        # one self-contained term per graph: (topo_ok, callable_ok, closure names, [(impl_invoke, spec_invoke) per call])
-        terms.append('(let G := %s in let O := %s in (topo_ok G O, callable_ok G, map (fun id => (id, closure_names G O id)) O, [%s]))'
-                     % (coq_graph(G), nl(order), '; '.join('(impl_invoke teval true G %d %d %s, spec_invoke teval true G O %d %s)' % (fuel, i, coq_env(d), i, coq_env(d))
+        # one self-contained term per graph: (topo_ok, callable_ok && fuel certificate, closure names, [(impl_invoke, denote) per call]);
+        # graph_fuel_auto: the static bound of C04_graph_fuel_sufficient / C04_fuel_sufficient_all holds for this graph
+        terms.append('(let G := %s in let O := %s in (topo_ok G O, (callable_ok G, graph_fuel_auto G O), map (fun id => (id, closure_names G O id)) O, [%s]))'
+                     % (coq_graph(G), nl(order), '; '.join('(impl_invoke teval true G %d %d %s, denote teval G %d %s)' % (fuel, i, coq_env(d), i, coq_env(d))
                                                            for (i, label, d, base) in idx)))
     impl = ctx.run_impl('model', reqs, shards=16)
     model = ctx.run_model(HEADER, terms, shard_size=max(10, len(terms) // 16 + 1), tag='%s%d' % (tag, os.getpid()))
@@ -545,8 +553,10 @@ def judge(ctx, res, stats):
     for g in res:
         G = g['G']
         B = by_id(G)
-        topo, cok, cl = g['head']
+        topo, (cok, fuel_ok), cl = g['head']
         cl = dict(cl)
+        stats['graphs: fuel certified (graph_fuel_auto)' if fuel_ok else 'graphs: fuel NOT certified by the static bound'] = \
+            stats.get('graphs: fuel certified (graph_fuel_auto)' if fuel_ok else 'graphs: fuel NOT certified by the static bound', 0) + 1
         if not topo or not cok:
             ctx.broken.append('generator: graph is not topologically ordered / callable sets are not the knowledge closure: %s' % describe(G))
             continue
@@ -653,6 +663,6 @@ def replay(ctx, path):
 
 
 MANIFEST = dict(
-    technique='Coq proof (recursive closure wiring refines the per-node semantics tabulated along a topological order; non-interference; over an abstract expression evaluator, instantiated with the evaluator of the check) with model/code correspondence on generated DRGs',
-    text='Theorems (coq/Props/C04.v, closed under the global context) for every acyclic requirement graph (inputs, decisions, knowledge models requiring knowledge models and services, decision services with input/encapsulated/output decisions), every node, every input context and every fuel >= |graph|, over ANY expression evaluator that uses its service call-back extensionally: the recursive closures of decision.rs / business_knowledge_model.rs / decision_service.rs compute the semantics tabulated once per node in topological order (so diamonds agree and fuel is irrelevant), that semantics is a fixed point of the closure body, the logic of a decision sees exactly its required inputs, the function values of its knowledge closure and the own value of each required decision (C04_decision_scope / C04_decision_sees), a decision service returns the values of its output decisions (C04_service_outputs), and input entries outside the requirement closure of the invoked element have no influence. The tiny evaluator is tied to the FEEL evaluator model of C01 (C04_teval_is_feel_eval, coq/C04/LinkC01.v): on null, numbers, strings, names, + *, literal invocation of knowledge-model function values and boxed contexts with or without result entry it EQUALS C01 eval_spec and the scope-stack machine run_impl on the translated expression and environment (the sign of a zero included), whenever the evaluation stays in that fragment within 60 levels — no other hypothesis: numbers are decimal128 data with the rounded + * of coq/Base/DecRound.v on both sides (any size, overflow = null), + concatenates strings, of two equal formal parameter names the last argument stays bound (C04_teval_feel_corners: "a"+"b" = "ab", f(1,2) with parameters (x,x) = 2, a*a+1 at a = 10^17 = 1E+34, -3*0 = -0 in teval, in C01 and in the real code). Tied to the code by generated DMN documents (literal, boxed context, boxed invocation, relation logic; BKMs invoked literally and boxed, some with repeated parameter names; services as functions; string operands; numbers up to 38 digits, compared by value at every size) evaluated through evaluate_invocable against the model instantiated with the tiny evaluator; non-interference is also judged on the implementation alone.',
-    note='Trusted: Coq kernel + vm_compute, hand-written model of the wiring (correspondence-checked, not verified), the tiny evaluator standing for the FEEL evaluator on the generated expression fragment, harness. Interpretive choices listed in the evidence (input entries named like a required decision override it; service input decisions are parameters). Decision tables and boxed function definitions as logic are not generated (C03 / C01).')
+    technique='Coq proof (the recursive closure wiring computes an independent denotational Spec written as a value-by-recursion over the acyclic graph with priority-list environments; fuel sufficiency with the answer at exhaustion as a parameter; non-interference; over an abstract expression evaluator, instantiated with the evaluator of the check) with model/code correspondence on generated DRGs',
+    text='Theorems (coq/Props/C04.v, 33, closed under the global context). INDEPENDENT SPEC (coq/C04/Denote.v): denote eval G id inp, a value by recursion over the acyclic requirement graph (fuel = number of nodes + 1; C04_denote_fuel_irrelevant), written without the closure body / run / zip / overwrite: a decision denotes the value of its logic in an environment given as a priority list read by lookup - supplied entries named like a required decision or knowledge function, then required decisions bound to what THEY denote, required services as function values, knowledge models and transitively their knowledge requirements (dynamic scoping), required inputs bound to the supplied number-typed value, nothing else (C04_denote_decision, C04_denote_scope); a decision service denotes the value(s) of its output decisions on {input data, input decisions: supplied values} (input decisions are parameters, never evaluated: decision_service.rs after 6a3e4f8, mirrored by the ImplModel). C04_impl_is_denotation: for EVERY acyclic graph (inputs, decisions, knowledge models requiring knowledge models and services, services with input/encapsulated/output decisions), every element, every input context and every fuel >= |order|, the ImplModel of the closures of decision.rs / business_knowledge_model.rs / decision_service.rs (phases, set_entry / zip / overwrite, evaluation order) equals denote, over ANY evaluator that uses its service call-back extensionally and reads its scope by look-up (teval does: C04_teval_ext, C04_teval_reads_by_lookup; instance C04_impl_is_denotation_teval). The theorem fails for the pinned variant: C04_orig_is_not_denotation (the witness of C04_knowledge_service_orig_refuted, denote = 20, orig = null). C04_denote_irrelevant_inputs / C04_irrelevant_inputs: entries outside the requirement closure have no influence. FUEL: run answers `out` and the tiny evaluator null when fuel is used up; with that answer as a parameter (run_d, tev_d) C04_run_fuel_sufficient (more fuel than nodes), C04_tev_fuel_sufficient (ranked scope: need e = depth + call level * body depth), C04_graph_fuel_sufficient and C04_fuel_sufficient_all (graph_fuel_ok + first-order inputs: ImplModel with ANY exhaustion answer of the closures = denotation with ANY exhaustion answer of the evaluator) show no exhaustion answer reaches a result; the check evaluates graph_fuel_auto for every generated graph (all certified). The older theorems C04_refines, C04_invoke_refines, C04_fuel_sufficient, C04_diamond_agree, C04_spec_fixpoint, C04_decision_scope / _sees, C04_service_outputs relate run to spec_step, which tabulates the SAME closure body: they say that recursion scheme, fuel and requesting path do not matter (also for the defective variant), not that the wiring is right. The tiny evaluator is tied to the FEEL evaluator model of C01 (C04_teval_is_feel_eval, coq/C04/LinkC01.v): on null, numbers, strings, names, + *, literal invocation of knowledge-model function values and boxed contexts with or without result entry it EQUALS C01 eval_spec and the scope-stack machine run_impl on the translated expression and environment, whenever the evaluation stays in that fragment within 60 levels (C04_teval_feel_corners: "a"+"b" = "ab", f(1,2) with parameters (x,x) = 2, a*a+1 at a = 10^17 = 1E+34, -3*0 = -0 in teval, in C01 and in the real code). Tied to the code by generated DMN documents (literal, boxed context, boxed invocation, relation logic; BKMs invoked literally and boxed, some with repeated parameter names; services as functions, one whose input decision requires and invokes it; string operands; numbers up to 38 digits, compared by value at every size) evaluated through evaluate_invocable and compared with denote teval (and impl_invoke teval); non-interference is also judged on the implementation alone.',
+    note='Trusted: Coq kernel + vm_compute, hand-written model of the wiring (correspondence-checked, not verified), the tiny evaluator standing for the FEEL evaluator on the generated expression fragment, harness. Interpretive choices listed in the evidence (input entries named like a required decision override it; service input decisions are parameters). Decision tables and boxed function definitions as logic are not generated (C03 / C01). The fuel bound does not cover knowledge models that call each other through the dynamic scope of a common caller (acyclic requirements, endless evaluation): not generated.')
